@@ -9,7 +9,7 @@ Not decided: elementwise behaviour of vectorised masks inside JAX (vmap of the a
 """
 from ..gfi import distribution, vmap
 from ..gfi.common import run_for
-from ..rules import is_call, is_mcall, mentions
+from ..rules import Arms, is_call, is_mcall, mentions
 from ..terms import C, Evaluator, G, P, is_t, mk_proj, show, subterms, mk_cmp, mk_phi
 
 CM = "core/generative/choice_map.py"
@@ -28,7 +28,7 @@ def chm_mask_rules(chk, prog):
     r = ev.eval_fn(ch.methods["build"], ch.module, ch)
     V = P("v")
     PF = ("call", ("attr", V, "primal_flag"), (), ())
-    got = {}
+    got = Arms()
     for conds, ret in r.returns:
         pos = [t for t, p in conds if p]
         if ("is", PF, C(False)) in pos:
@@ -40,7 +40,7 @@ def chm_mask_rules(chk, prog):
     okc = is_call(got.get("F"), "empty") and got.get("T") == ("ctor", "Choice", (("attr", V, "value"),), ()) and got.get("traced") == ("ctor", "Choice", (V,), ())
     chk.require(okc, "CHM-CONCRETE", "Choice.build", "masked value with a concrete flag", derived={k: show(v) for k, v in got.items()}.__str__(), expected="False -> empty map; True -> Choice(value); traced -> Choice(mask)", where=W(ch, "build"))
     r = ev.eval_fn(ch.methods["filter"], ch.module, ch)
-    got = {}
+    got = Arms()
     for conds, ret in r.returns:
         pos = [t for t, p in conds if p]
         if any(is_t(t, "isinst") and t[2] == "Selection" for t in pos):
